@@ -187,7 +187,7 @@ func c03TruthTable(r *vf.Run) {
 		order int64
 	}
 	var jobs []job
-	orders := 3
+	orders := r.Pick(3, 6)
 	for _, m := range ix.OpenModes {
 		for o := 0; o < orders; o++ {
 			jobs = append(jobs, job{fmt.Sprintf("tt/%s/order%d", m, o), m, int64(o)})
@@ -366,7 +366,7 @@ func c03Queries(rng *rand.Rand, ds *gen.Dataset, n int) []seqQuery {
 }
 
 func c03Sequences(r *vf.Run) {
-	nds := r.Pick(40, 120)
+	nds := r.Pick(40, 500)
 	var ids []string
 	for i := 0; i < nds; i++ {
 		ids = append(ids, fmt.Sprintf("seq%02d", i))
